@@ -71,6 +71,11 @@ theorem linv_syncListen (s s' : LSt) (h : LInv s) (hs : lstep s .syncListen = so
   simp only [lstep] at hs
   split at hs <;> simp at hs; subst hs
   constructor <;> (first | (simp_all; done) | grind)
+theorem linv_syncListenFail (s s' : LSt) (h : LInv s) (hs : lstep s .syncListenFail = some s') : LInv s' := by
+  obtain ⟨h1, h2, h3, h4, h5, h6, h7, h8, h9, h10, h11, h12, h13, h14, h15, h16, h17, h18, h19, h20, h21⟩ := h
+  simp only [lstep] at hs
+  split at hs <;> simp at hs; subst hs
+  constructor <;> (first | (simp_all; done) | grind)
 theorem linv_syncDecide (s s' : LSt) (h : LInv s) (hs : lstep s .syncDecide = some s') : LInv s' := by
   obtain ⟨h1, h2, h3, h4, h5, h6, h7, h8, h9, h10, h11, h12, h13, h14, h15, h16, h17, h18, h19, h20, h21⟩ := h
   simp only [lstep] at hs
@@ -104,6 +109,7 @@ theorem linv_step (s s' : LSt) (a : LAct) (h : LInv s) (hs : lstep s a = some s'
   | syncDecide => exact linv_syncDecide s s' h hs
   | acceptWake => exact linv_acceptWake s s' h hs
   | syncFail => exact linv_syncFail s s' h hs
+  | syncListenFail => exact linv_syncListenFail s s' h hs
 
 theorem linv_run : ∀ (acts : List LAct) (s s' : LSt), LInv s → lrun s acts = some s' → LInv s'
   | [], s, s', h, hr => by simp [lrun] at hr; subst hr; exact h
